@@ -1690,6 +1690,20 @@ func c16Table() []*c16Case {
 			}
 		}
 	}
+	// --skip-generated must not hide a file that does not parse, whatever
+	// its text looks like (here: the marker below the package clause, and a
+	// raw string with a line like a second package clause).
+	for i := 0; i < 3; i++ {
+		cs := &c16Case{Mode: "kinds", Via: "p", Patches: threePatches(), Args: []string{"tree"}, Flags: []string{"--skip-generated"}}
+		for x := 0; x < 3; x++ {
+			if x == i {
+				cs.Files = append(cs.Files, c16File{Name: names[x], Role: "unparseable", Src: "package p\n\n// Code generated by hand. DO NOT EDIT.\n\nvar tmpl = `\npackage q\n`\n\nfunc broken( {\n\tcnt(0)\n}\n"})
+			} else {
+				cs.Files = append(cs.Files, good(x))
+			}
+		}
+		out = append(out, cs)
+	}
 	// The same kind of failure in two files of one run, at every pair of
 	// positions: the second one is to be treated like the first.
 	for i := 0; i < 3; i++ {
